@@ -202,7 +202,7 @@ func checkRay2(c *kase, s *subject2, o, d V2) {
 			c.Violate(key("RayCollisions", "hit-set"), wref, "hit %d: Scale %g, reference %g", i, g.Scale, h.T)
 			return
 		}
-		if h.Feat < featNormal*size {
+		if h.Feat < featNormal*size || h.Rad < radNormal*size {
 			continue
 		}
 		if i > 0 && (h.T-j.hits[i-1].T)*dn < 10*tolT || i+1 < len(j.hits) && (j.hits[i+1].T-h.T)*dn < 10*tolT {
